@@ -131,6 +131,15 @@ fn base64_encode(s: &str) -> String {
     out
 }
 
+fn c17() {
+    // F-C17-1: a generic `.`/`#` selector whose key cannot be extracted is dropped
+    let e = engine(&["##.\\110000 a", "##.ok"], false);
+    let r = e.url_cosmetic_resources("http://x.com/");
+    let via_url = r.hide_selectors.iter().any(|s| s.contains("110000"));
+    let via_cls = e.hidden_class_id_selectors(&["\u{fffd}", "110000", "\\110000", "ok"], &[] as &[&str], &Default::default());
+    println!("C17-1 `##.\\110000 a`: in url resources={via_url}, class lookup returns {:?} (expected reachable one way)", via_cls);
+}
+
 fn c10_1() {
     let mut e = Engine::default();
     let r = std::panic::catch_unwind(std::panic::AssertUnwindSafe(|| {
@@ -159,6 +168,7 @@ fn main() {
     if want("c04") { c04(); }
     if want("c05") { c05(); }
     if want("c08") { c08(); }
+    if want("c17") { c17(); }
     if want("c06_1") { c06_1(); }
     if want("c06_2") { c06_2(); }
     if want("c07") { c07(); }
